@@ -20,6 +20,7 @@ PROPS["C13"] = dict(
         dict(name="patterns", run="^TestC13Patterns$", shards=(6, 16), timeout=(300, 1800), shrinktime="20s"),
         dict(name="exitrace", run="^TestC13ExitRace$", shards=(2, 16), timeout=(300, 1800)),
         dict(name="rapid", run="^TestC13Rapid$", checks=(30, 400), shards=(6, 16), timeout=(300, 1800), shrinktime="20s"),
+        dict(name="rapid_oldtimers", run="^TestC13Rapid$", checks=(10, 200), shards=(1, 4), timeout=(300, 1800), shrinktime="20s", env={"GODEBUG": "asynctimerchan=1"}),
     ],
 )
 
